@@ -407,8 +407,14 @@ func trieGapsAtDepth[K kad.Key[K], D any](t *trie.Trie[bitstr.Key, D], depth int
 			continue
 		}
 		bstr := bitstr.Key(byte('0' + i))
+		// An empty branch above the target's depth: nothing covers the target,
+		// and only the target is asked about, not the whole branch.
+		emptyBranch := bstr
+		if depth+1 < len(target) {
+			emptyBranch = target[depth:]
+		}
 		if b := t.Branch(i); b == nil {
-			gaps = append(gaps, bstr)
+			gaps = append(gaps, emptyBranch)
 		} else if b.IsLeaf() {
 			if b.HasKey() {
 				k := *b.Key()
@@ -435,7 +441,7 @@ func trieGapsAtDepth[K kad.Key[K], D any](t *trie.Trie[bitstr.Key, D], depth int
 					}
 				}
 			} else {
-				gaps = append(gaps, bstr)
+				gaps = append(gaps, emptyBranch)
 			}
 		} else {
 			for _, gap := range trieGapsAtDepth(b, depth+1, target, order) {
